@@ -590,6 +590,12 @@ class Exec:
             self.safety(st, 'slice-nonneg', e, And(lo >= 0, hi >= 0))
             hi2 = If(hi < n, hi, n)
             return SubSeq(recv, lo, If(hi2 - lo > 0, hi2 - lo, 0))
+        if isinstance(recv, ArrList):
+            if lo is not None and not (_const_int(lo) == 0):
+                raise OutOfSubset('ArrList slice with a lower bound')
+            hi = recv.n if hi is None else self.as_int(hi)
+            self.safety(st, 'slice-nonneg', e, hi >= 0)
+            return ArrList(recv.arrs, If(hi < recv.n, hi, recv.n))
         if self.subscript_hook is not None:
             r = self.subscript_hook(self, e, recv, ('slice', lo, hi), st)
             if r is not NotImplemented:
